@@ -15,6 +15,8 @@ RULES = {
     "R15.2": "only TypeNameError is raised deliberately; the root destructuring is inside a try "
              "whose except ValueError re-raises TypeNameError; TypeNameError is not a ValueError "
              "and is an EncodeError/CodecError; callers do not translate it",
+    "R15.4": "bracket matching tracks nesting depth",
+    "R15.5": "parsing keeps no state between calls (no module/class-level caches)",
     "R15.3": "guarded destructuring: every sequence destructuring / pop is dominated by a length "
              "test of the same list that exits on empty",
 }
@@ -222,4 +224,57 @@ def run(chk: Check) -> None:
                    ok, g.loc(n),
                    "%s destructures/pops '%s' without a dominating non-empty test: an implicit "
                    "ValueError/IndexError would escape instead of TypeNameError" % (g.qualname, lst), 2)
-    chk.floor("R15.3", "destructuring / pop sites", n_d, 4)
+    chk.floor("R15.3", "destructuring / pop sites", n_d, 3)
+    bracket_matching(chk, "R15.4")
+    from .purity import codec_state
+    codec_state(chk, "R15.5")
+
+
+def bracket_matching(chk: Check, rule: str) -> None:
+    """The extent of a parameter list must be found with nesting awareness: the code that
+    handles an opening '<' has to look at both '<' and '>' tokens of the remainder (depth
+    counting / a stack / recursion per '<').  Matching the first or the last '>' mis-splits
+    siblings that have parameters of their own."""
+    ser = chk.repo.cls("Serialization")
+    f = ser.methods.get("_parse_type")
+    if f is None:
+        raise AnalysisError("anchor vanished: Serialization._parse_type")
+    inner = f.nested()
+    g = inner.get("parse")
+    if g is None:
+        raise AnalysisError("anchor vanished: the nested parse() of Serialization._parse_type")
+    chk.saw(g)
+    opens = [n for n in walk_no_nested(g.node) if isinstance(n, ast.If) and isinstance(n.test, ast.Compare)
+             and len(n.test.ops) == 1 and isinstance(n.test.ops[0], ast.Eq)
+             and const_str(n.test.comparators[0]) == "<"]
+    if not opens:
+        raise AnalysisError("parse(): no branch handling an opening '<' found")
+    br = opens[0]
+    aware = False
+    how = "no loop over the remaining tokens that distinguishes '<' from '>'"
+    for lp in ast.walk(br):
+        if not isinstance(lp, (ast.For, ast.While)):
+            continue
+        seen = {"<": False, ">": False}
+        updates = 0
+        for n in ast.walk(lp):
+            if isinstance(n, ast.Compare) and len(n.ops) == 1 and isinstance(n.ops[0], (ast.Eq, ast.NotEq)):
+                s = const_str(n.comparators[0]) or const_str(n.left)
+                if s in seen:
+                    seen[s] = True
+            if isinstance(n, ast.Call) and isinstance(n.func, ast.Attribute) and n.func.attr in ("append", "pop"):
+                updates += 1
+            if isinstance(n, ast.AugAssign) and isinstance(n.op, (ast.Add, ast.Sub)):
+                updates += 1
+        if all(seen.values()) and updates >= 2:
+            aware = True
+    if not aware:
+        # recursion per '<' is the other nesting-aware scheme
+        rec = [c for c in ast.walk(br) if isinstance(c, ast.Call) and attr_path(c.func) == ("parse",)]
+        cmp_open = [n for n in ast.walk(br) if isinstance(n, ast.Compare) and n is not br.test
+                    and any(const_str(x) == "<" for x in [n.left] + list(n.comparators))]
+        aware = bool(rec) and bool(cmp_open)
+    chk.ob(rule, "Serialization._parse_type:bracket-matching-tracks-depth", aware, g.loc(br),
+           "the closing '>' of a parameter list is not located with nesting awareness (%s): a type "
+           "such as tuple<sequence<string>,sequence<int8_t>> is split at the wrong bracket and "
+           "rejected or mis-parsed" % how, 3)
